@@ -171,35 +171,48 @@ Definition dict_slots (k : kind) : list str :=
   | _ => []
   end.
 
+Definition PUB_KINDS : list kind := [KFunction; KSubroutine; KGeneric; KAbsInt; KType; KVar].
+
+(* the dictionary obj2dict builds for an object of class [k]: name, external_url, obj, proctype,
+   then the attributes of ATTRIBUTES the class has ([dv]: entries of a dict attribute, [lv]: items of
+   a list attribute) *)
+Definition node_entries (k : kind) (name : str) (url : option str) (p : perm)
+           (dv : str -> list (str * json)) (lv : str -> list json) : list (str * json) :=
+  [(s "name", JStr name); (s "external_url", JStr (url_text url)); (s "obj", JStr (obj_str k))]
+  ++ match proctype_str k with Some t => [(s "proctype", JStr t)] | None => [] end
+  ++ map (fun sl => (sl, JDict (dv sl))) (dict_slots k)
+  ++ map (fun sl => (sl, JList (lv sl))) (list_slots k)
+  ++ [(s "permission", JStr (perm_str p))].
+
 (* obj2dict of one entity.  [idf]: ident of the entity with a given id. *)
 Fixpoint export_ent (idf : nat -> str) (cfg : acfg) (pk : option kind) (purl : option str)
          (kept : bool) (e : ent) {struct e} : json :=
   match e with
   | Ent id k name p kids =>
     let url := own_url pk purl k (idf id) in
-    let lst (slot : str) : json :=
-      JList ((fix go (l : list ent) : list json :=
-                match l with
-                | [] => []
-                | c :: r =>
-                  if str_eqb (slot_of (e_kind c)) slot && listed cfg kept k c
-                  then export_ent idf cfg (Some k) url kept c :: go r
-                  else go r
-                end) kids) in
-    let dct (slot : str) : json :=
-      JDict ((fix go (l : list ent) : list (str * json) :=
-                match l with
-                | [] => []
-                | c :: r =>
-                  if opt_eqb str_eqb (pub_class (e_kind c)) (Some slot) && accessible c
-                  then (lower (e_name c), export_ent idf cfg (Some k) url (shown (c_display cfg) c) c) :: go r
-                  else go r
-                end) kids) in
-    JDict ([(s "name", JStr name); (s "external_url", JStr (url_text url)); (s "obj", JStr (obj_str k))]
-           ++ match proctype_str k with Some t => [(s "proctype", JStr t)] | None => [] end
-           ++ map (fun sl => (sl, dct sl)) (dict_slots k)
-           ++ map (fun sl => (sl, lst sl)) (list_slots k)
-           ++ [(s "permission", JStr (perm_str p))])
+    let lst (slot : str) : list json :=
+      (fix go (l : list ent) : list json :=
+         match l with
+         | [] => []
+         | c :: r =>
+           if str_eqb (slot_of (e_kind c)) slot && listed cfg kept k c
+           then export_ent idf cfg (Some k) url kept c :: go r
+           else go r
+         end) kids in
+    let dct_of (k' : kind) : list (str * json) :=
+      (fix go (l : list ent) : list (str * json) :=
+         match l with
+         | [] => []
+         | c :: r =>
+           if kind_eqb (e_kind c) k' && accessible c
+           then (lower (e_name c), export_ent idf cfg (Some k) url (shown (c_display cfg) c) c) :: go r
+           else go r
+         end) kids in
+    (* all_procs: routines (functions, subroutines) first, then the interfaces; the other dicts
+       hold one class each, in source order *)
+    let dct (slot : str) : list (str * json) :=
+      flat_map (fun k' => if opt_eqb str_eqb (pub_class k') (Some slot) then dct_of k' else []) PUB_KINDS in
+    JDict (node_entries k name url p dct lst)
   end.
 
 (* project A: its modules, options, and the NameSelector requests made before the dump
@@ -217,14 +230,17 @@ Fixpoint tree_reqs (pk : option kind) (e : ent) {struct e} : list req :=
 Definition all_reqs (A : aproject) : list req :=
   a_pre A ++ flat_map (tree_reqs None) (a_modules A).
 
-Fixpoint first_ident (id : nat) (rs : list req) (ns : list str) : str :=
-  match rs, ns with
-  | r :: rs', n :: ns' => if Nat.eqb (r_id r) id then n else first_ident id rs' ns'
-  | _, _ => []
+Fixpoint lookup_ident (id : nat) (tbl : list (nat * str)) : str :=
+  match tbl with
+  | [] => []
+  | (i, n) :: r => if Nat.eqb i id then n else lookup_ident id r
   end.
-(* ident of entity [id] of A *)
-Definition ident_of (A : aproject) (id : nat) : str :=
-  first_ident id (all_reqs A) (run_idents (all_reqs A)).
+(* (entity id, ident) for every request, in request order *)
+Definition ident_table (A : aproject) : list (nat * str) :=
+  let rs := all_reqs A in combine (map r_id rs) (run_idents rs).
+(* ident of entity [id] of A (the table is computed once) *)
+Definition ident_of (A : aproject) : nat -> str :=
+  let tbl := ident_table A in fun id => lookup_ident id tbl.
 
 Definition METADATA_NAME : str := s "ford-metadata".
 
@@ -706,9 +722,13 @@ Definition project_find (B : blocal) (tops : list xval) (n : str) (entity : opti
 (* module.get_used_entities(...) on an imported module: the object a USE statement of B imports
    under (lower-cased) name [n] from dict [which] (pub_procs / pub_absints / pub_types / pub_vars);
    a later key that lower-cases to the same name overrides an earlier one *)
+Definition PUB_DICTS : list str := [s "pub_procs"; s "pub_absints"; s "pub_types"; s "pub_vars"].
 Definition used_lookup (m : xval) (which : str) (n : str) : res (option xval) :=
-  match assoc_get which (x_attrs m) with
-  | Some (XD l) =>
-    Ok (fold_left (fun acc kv => if str_eqb (lower (fst kv)) (lower n) then Some (snd kv) else acc) l None)
-  | _ => Err AttributeError                         (* .items() on a non-dict *)
-  end.
+  (* all four dicts are walked (.items()) whichever one the name is then taken from *)
+  if forallb (fun w => match assoc_get w (x_attrs m) with Some (XD _) => true | _ => false end) PUB_DICTS
+  then match assoc_get which (x_attrs m) with
+       | Some (XD l) =>
+         Ok (fold_left (fun acc kv => if str_eqb (lower (fst kv)) (lower n) then Some (snd kv) else acc) l None)
+       | _ => Err AttributeError
+       end
+  else Err AttributeError.                          (* .items() on a non-dict *)
